@@ -295,6 +295,19 @@ def gdt_replay_lines(unknown, lines):
     return out
 
 
+MACHINE_RULE = ("; PLUS cross-structure scenarios (Trace_Machine): GDT (five descriptors in random order) + TSS with stacks + IDT "
+                "with 4-13 handlers and options are built through the API and handed to the emulated CPU (lgdt, ltr, lidt); the raw "
+                "memory at the loaded bases is logged and the specification delivers all 256 vectors the way the processor does "
+                "(Machine.tla): handler, code segment, IST / RSP0 stack, IF effect, INT n privilege check, #NP for unconfigured vectors")
+MACHINE_DESIGN = {"module": "MC_Machine", "cfg": "MC_Machine.cfg", "workers": 2}
+
+
+def machine_runs(tier, seed):
+    n = 400 if tier == "quick" else 6000
+    return [{"name": "machine%d" % seed, "prof": prof, "trace_module": "Trace_Machine",
+             "args": ["machine", "--seed", str(seed), "--n", str(n)]} for prof in ("dev", "rel")]
+
+
 def gdt_plan(family, n_quick, n_thorough, rule, design):
     def mk(tier, seed):
         n = n_quick if tier == "quick" else n_thorough
@@ -302,8 +315,9 @@ def gdt_plan(family, n_quick, n_thorough, rule, design):
         for sd in ([seed] if tier == "quick" else [seed, seed + 1, seed + 2]):
             for prof in ("dev", "rel"):
                 runs.append({"name": "%s%d" % (family, sd), "prof": prof, "args": [family, "--seed", str(sd), "--n", str(n)]})
-        return {"design": [dict(d) for d in design], "runs": runs, "trace_module": "Trace_Gdt", "level": "model_checking",
-                "rule": rule, "assumptions": CPU_ASSUME[:1] + ADDR_ASSUME[2:] + ["descriptor formats in Gdt.tla are transcribed from SDM vol. 3 ch. 3.4.5 / 7.2.3 (AMD APM vol. 2 ch. 4.7-4.8)"],
+        runs += machine_runs(tier, seed)
+        return {"design": [dict(d) for d in design] + [MACHINE_DESIGN], "runs": runs, "trace_module": "Trace_Gdt", "level": "model_checking",
+                "rule": rule + MACHINE_RULE, "assumptions": CPU_ASSUME[:1] + ADDR_ASSUME[2:] + ["descriptor formats in Gdt.tla are transcribed from SDM vol. 3 ch. 3.4.5 / 7.2.3 (AMD APM vol. 2 ch. 4.7-4.8)"],
                 "replay_lines": gdt_replay_lines}
     return mk
 
@@ -325,8 +339,10 @@ def idt_plan(family, n_quick, n_thorough, rule, design, exhaustive_note=None):
                 # the exhaustive enumerations (n >= 100000) run once per profile; further seeds add random cases
                 runs.append({"name": "%s%d" % (family, sd), "prof": prof,
                              "args": [family, "--seed", str(sd), "--n", str(n if k == 0 else min(n, 50000))], "vtimeout": 7200})
-        return {"design": [dict(d) for d in design], "runs": runs, "trace_module": "Trace_Idt", "level": "model_checking",
-                "rule": rule, "assumptions": CPU_ASSUME[:1] + ["the 64-bit gate format, vector classes (reserved / error-code / diverging) in Idt.tla are transcribed from SDM vol. 3 ch. 6 (APM vol. 2 ch. 8)"] + ADDR_ASSUME[2:],
+        if family == "idt":
+            runs += machine_runs(tier, seed)
+        return {"design": [dict(d) for d in design] + ([MACHINE_DESIGN] if family == "idt" else []), "runs": runs, "trace_module": "Trace_Idt", "level": "model_checking",
+                "rule": rule + (MACHINE_RULE if family == "idt" else ""), "assumptions": CPU_ASSUME[:1] + ["the 64-bit gate format, vector classes (reserved / error-code / diverging) in Idt.tla are transcribed from SDM vol. 3 ch. 6 (APM vol. 2 ch. 8)"] + ADDR_ASSUME[2:],
                 "exhaustive_note": exhaustive_note}
     return mk
 
